@@ -892,15 +892,16 @@ class SpatialBoxEventSelectionMethod(
                     else:
                         srcs_slice = slice(bi*batch_size, (bi+1)*batch_size)
 
-                    ra_diff = np.fabs(
-                        evts_ra - srcs_ra[srcs_slice][:, np.newaxis])
+                    ra_diff = np.mod(np.fabs(
+                        evts_ra - srcs_ra[srcs_slice][:, np.newaxis]), 2*np.pi)
                     ra_mod = np.where(
                         ra_diff >= np.pi, 2*np.pi - ra_diff, ra_diff)
                     mask_ra[srcs_slice, :] = (
                         ra_mod < dRA_half[srcs_slice][:, np.newaxis]
                     )
             else:
-                ra_diff = np.fabs(evts_ra - srcs_ra[:, np.newaxis])
+                ra_diff = np.mod(
+                    np.fabs(evts_ra - srcs_ra[:, np.newaxis]), 2*np.pi)
                 ra_mod = np.where(ra_diff >= np.pi, 2*np.pi-ra_diff, ra_diff)
                 mask_ra = ra_mod < dRA_half[:, np.newaxis]
 
